@@ -21,6 +21,8 @@ class C07Spec(explore.Spec):
         out = [{"version": v, "cb": None} for v in ("2.0", "2.1", "2.2")]
         if tier == "thorough":
             out += [{"version": "2.2", "cb": None, "flavour": "async"}, {"version": "2.1", "cb": None, "transport": "mqtt"}]
+        # persistence on: a periodic save, or a stop + fresh start (nodes restored from the file), at any position
+        out += [{"version": "2.2", "cb": None, "persistence": fmt, "depth": 3 if tier == "quick" else 4} for fmt in ("pickle", "json")]
         return out
 
     def alphabet(self, cfg):
@@ -37,6 +39,8 @@ class C07Spec(explore.Spec):
             ("set", 1, 7, 2, "1"),
             ("fw", 1, 1, 1, "F1"),
         ]
+        if cfg.get("persistence"):
+            evs += [("tick",), ("restart",)]
         return evs
 
     def roots(self, cfg):
@@ -55,7 +59,7 @@ class C07Spec(explore.Spec):
         t = alpha.lines(cfg["version"])
         viols = []
         world.close()
-        if len(hist) > 9:
+        if len(hist) > 9 or cfg.get("persistence"):
             return viols  # the pair schedule is applied in every state up to this history length
         for a in PAIR_NAMES:
             for b in PAIR_NAMES:
